@@ -488,11 +488,31 @@ def main():
         chk.obligation('translator:tlspolicy (failed: %s) -> fallback: exhaustive differential against the last generated model' % tr_err[:300],
                        corr_ok and props_ok, detail)
 
+    # informational (outside the property's quantifier "for all certificates"): the peer presents NO certificate
+    # (verify_mode is CERT_OPTIONAL, so getpeercert(True) is None)
+    probe = []
+    for (role, rh) in itertools.product(I.ROLES, (False, True)):
+        obs = I.run_authn_row(dict(kind='authn', role=role, fam='v4', san=None, cert=False, require_host=rh, require_node=False), 'e2e')
+        probe.append(dict(role=role, require_host=rh, established=obs['established'], state=obs['state'],
+                          term_reasons=obs['term_reasons'], escaped=obs['escaped']))
+        if obs['established'] and rh:
+            report('%s/require_host/no-peer-certificate' % role_class(dict(role=role)),
+                   'session established under TLS with host authentication required and no peer certificate at all',
+                   dict(kind='authn', role=role, fam='v4', san=None, cert=False, require_host=rh, require_node=False))
+    chk.coverage['no_peer_certificate_probe'] = probe
+
+    if not quick and props_ok:
+        # independent re-check of the compiled proofs by the stand-alone checker
+        (ret, out) = chk._run(['timeout', '1200', 'coqchk', '-silent', '-o', '-Q', '.', 'DTN', 'DTN.Props.C15'], 1300)
+        okay = (ret == 0 and 'Axioms: <none>' in out)
+        chk.obligation('coqchk:DTN.Props.C15', okay, out[-600:] if not okay else '')
+        chk.trusted_base.append('coqchk -o on DTN.Props.C15: ' + ' '.join(out.split())[-300:])
+
     chk.coverage['exhaustive'] = True
-    chk.coverage['refuted_or_partial_theorems'] = {
-        'C15_authn_host_refuted / C15_authn_refuted / C15_authn_partial / C15_authn_host_defect_exact':
-            'host-authentication clause: signatures passive/require_host/dns-only-cert and active-by-address/require_host/dns-only-cert',
-    }
+    # none standing: C15_authn is proved at full strength since repository commit 55f212b; the witnesses of the former
+    # host-authentication defect (harness/corpus/C15_host_authn.json) are run first and must satisfy the oracle
+    chk.coverage['refuted_or_partial_theorems'] = []
+    chk.coverage['corpus_rows_run_first'] = len(corpus)
     chk.coverage['oracle_failures_by_signature'] = dict(sorted(viol_counts.items()))
     chk.coverage['translator'] = dict(ok=tr_ok, error=tr_err)
     chk.finish(
